@@ -90,8 +90,32 @@ def sym_params(N):
     return {"radius": mk("r"), "length": mk("l"), "axial_resistivity": mk("ra"), "capacitance": mk("cm"), "a": mk("a"), "c": mk("c"), "v": mk("v")}
 
 
+CANARIES = [
+    ("jaxley.solver_voltage:_eliminate_single_child_lower", "src", "-branchpoint_weights_children / diags", "branchpoint_weights_children / diags"),
+    ("jaxley.utils.cell_utils:compute_coupling_cond", "src", "/ l1 * 10**7", "/ l1 * 10**6"),
+    ("jaxley.utils.cell_utils:compute_coupling_cond_branchpoint", "src", "l**2", "l"),
+    ("jaxley.solver_voltage:_eliminate_children_upper", "src", "idx.first(bil)", "idx.last(bil)"),
+    ("jaxley.solver_voltage:step_voltage_implicit_with_jax_spsolve", "src", "1.0 + delta_t * voltage_terms", "1.0 - delta_t * voltage_terms"),
+    ("jaxley.modules.base:Module.step", "src", "half_step_delta_t = delta_t / 2", "half_step_delta_t = delta_t / 3"),
+    ("jaxley.solver_voltage:_backsub_level", "src", "diags = diags.at[idx.branch(bil)].set(1.0)", "diags = diags.at[idx.branch(bil)].set(2.0)"),
+]
+CANARY_STRUCT = [([-1, 0, 0], [2, 2, 2])]
+
+
 def structure_worker(arg):
-    cells, tier, backends = arg
+    cells, tier, backends = arg[:3]
+    canary = arg[3] if len(arg) > 3 else None
+    from .. import chain as CH
+    from . import common
+    undo = common.apply_canary(*canary) if canary else None
+    try:
+        return _structure_worker(cells, tier, backends, canary is not None)
+    finally:
+        if undo:
+            undo()
+
+
+def _structure_worker(cells, tier, backends, is_canary):
     from .. import chain as CH
     from ..specs import cable
     from ..sym import Ctx, Sym
@@ -121,19 +145,43 @@ def structure_worker(arg):
                     out["refused"].append(f"{be}: {info['refused']}")
             out["results"] += res
             out["reached"].update(info.get("reached", {}))
+        res, info = CH.run_step_schemes(module, topo, tag, tmo)
+        out["results"] += res
+        out["reached"].update(info.get("reached", {}))
+        out["refused"] += info.get("refused", [])
+        if not is_canary:
+            out["results"] += CH.crank_nicolson_lemma(topo, tag, tmo)
     except Exception as e:
         out["error"] = f"{type(e).__name__}: {e}\n{traceback.format_exc(limit=8)}"
     out["wall"] = round(time.time() - t0, 2)
     return out
 
 
+FUNCS = [
+    "jaxley.solver_voltage.step_voltage_implicit_with_jaxley_spsolve", "jaxley.solver_voltage._triang_branched", "jaxley.solver_voltage._backsub_branched",
+    "jaxley.solver_voltage._triang_level", "jaxley.solver_voltage._backsub_level", "jaxley.solver_voltage._eliminate_children_lower",
+    "jaxley.solver_voltage._eliminate_single_child_lower", "jaxley.solver_voltage._eliminate_parents_upper", "jaxley.solver_voltage._eliminate_single_parent_upper",
+    "jaxley.solver_voltage._eliminate_parents_lower", "jaxley.solver_voltage._eliminate_children_upper",
+    "jaxley.solver_voltage.step_voltage_implicit_with_jax_spsolve", "jaxley.solver_voltage.step_voltage_explicit", "jaxley.solver_voltage._voltage_vectorfield",
+    "jaxley.utils.cell_utils.compute_axial_conductances", "jaxley.utils.cell_utils.compute_coupling_cond", "jaxley.utils.cell_utils.compute_coupling_cond_branchpoint",
+    "jaxley.utils.cell_utils.compute_impact_on_node", "jaxley.utils.cell_utils.group_and_sum", "jaxley.modules.base.Module.step",
+    "tridiax.thomas.thomas_triang_upper", "tridiax.thomas.thomas_backsub_lower",
+]
+
+
 def main(tier):
     ck = Check(PID, tier)
     S = structures(tier, ck.seed)
+    # parent vectors that are not topologically sorted: must be refused (or solved correctly)
+    S += [[([-1, 2, 0], [1, 1, 1])], [([-1, 2, 0], [2, 1, 2])], [([-1, 0, 3, 1], [1, 2, 1, 1])]]
     backends = ["jaxley.thomas", "jax.sparse"]
-    outs = run_units("jxverif.props.C01", "structure_worker", [(c, tier, backends) for c in S])
+    args = [(c, tier, backends) for c in S] + [(CANARY_STRUCT, "quick", backends, can) for can in CANARIES]
+    outs = run_units("jxverif.props.C01", "structure_worker", args)
     n_struct = 0
-    for o in outs:
+    failed_funcs = set()
+    reached = {}
+    viol = 0
+    for o in outs[:len(S)]:
         if o[0] != "ok":
             ck.error(o[1][:500])
             continue
@@ -144,13 +192,50 @@ def main(tier):
         n_struct += 1
         for r in o["refused"]:
             ck.refused.append(f"{o['tag']}: {r}")
+        bad = [r for r in o["results"] if r["status"] == "refuted"]
+        rp = None
         for r in o["results"]:
             ck.add(r)
-            if r["status"] == "refuted":
-                ck.violation(r["name"], {"solver": r["backend"], "solver_output": r["detail"], "model": r["model"], "cells": o["cells"], "kind": "c01",
-                                         "replay_module": "jxverif.props.C01"}, reproduced=False)
-        ck.extra.setdefault("code_reached", {}).update(o["reached"])
-    ck.extra["structures"] = {"count": n_struct, "exhaustive": True, "bound": "quick: all trees <= 4 branches x ncomp in {1,2}; + deeper samples + 6 networks"}
+        if bad:
+            # one native replay per structure: all backends, both implicit schemes, against a dense solve of the spec
+            try:
+                rp = native_compare(o["cells"])
+                if not rp["reproduced"]:
+                    rp2 = native_compare(o["cells"], solver="crank_nicolson")
+                    rp = rp2 if rp2["reproduced"] else rp
+            except Exception as e:
+                rp = {"reproduced": False, "reason": f"native construction/integration raised {type(e).__name__}: {str(e)[:100]}"}
+            for r in bad[:5]:
+                failed_funcs.add(r["name"].split(":")[0])
+                if viol < 40:
+                    ck.violation(r["name"], {"solver": r["backend"], "solver_output": r["detail"], "model": r["model"], "cells": o["cells"], "kind": "c01",
+                                             "replay_module": "jxverif.props.C01", "replay": rp, "other_failed_obligations_same_structure": [b["name"] for b in bad[:20]]},
+                                 reproduced=rp.get("reproduced", False))
+                    viol += 1
+        reached.update(o["reached"])
+    for can, o in zip(CANARIES, outs[len(S):]):
+        ref = o[0] == "ok" and not o[1]["error"] and any(r["status"] == "refuted" for r in o[1]["results"])
+        ck.canaries.append((f"{can[0]}: {can[2]!r} -> {can[3]!r}", ref))
+    for f in FUNCS:
+        short = f.replace("jaxley.", "").replace("utils.", "")
+        n = reached.get(f, 0)
+        if n == 0:
+            ck.add_function(f, "assumed" if f.startswith("tridiax") else "body NOT discharged")
+            if not f.startswith("tridiax"):
+                ck.error(f"contract target {f} was never executed")
+        else:
+            ck.add_function(f, "body NOT discharged" if any(short.split(".")[-1] in ff for ff in failed_funcs) else "body discharged", n)
+    ck.add_function("tridiax.stone.stone_triang_upper / stone_backsub_lower", "assumed")
+    ck.add_function("jax.experimental.sparse.linalg.spsolve", "assumed")
+    ck.extra["code_reached"] = {k: v for k, v in reached.items() if k.split(".")[0] in ("jaxley", "tridiax")}
+    ck.extra["structures"] = {"count": n_struct, "exhaustive_within_bound": True,
+                              "bound": ("all parent vectors with parents[i]<i for <= 4 branches x ncomp in {1,2}; single branches up to 4 compartments; 2 deeper samples; 6 networks of 2-3 cells; 3 unsorted parent vectors"
+                                        if tier == "quick" else "trees <= 5 branches x ncomp in {1,2,3}; <= 4 branches with a 4-compartment branch; 200 seeded random trees <= 8 branches / <= 5 compartments; all 2- and 3-cell networks over a 6-cell family")}
+    ck.trusted = ["jax.experimental.sparse.linalg.spsolve solves the CSR system it is given", "tridiax.stone_* computes the same function as tridiax.thomas_* (thomas runs through the obligations, stone is assumed)",
+                  "jax.numpy/lax/vmap primitive models", "z3 nlsat", "specs/cable.py states the physics",
+                  "cited: a strictly diagonally dominant M-matrix system has exactly one solution"]
+    ck.assumptions += ["positive radius/length/axial resistivity/capacitance, membrane conductance terms >= 0, dt > 0; all REAL values (proved), static structure enumerated (bounded)",
+                       "math.pi / jnp.pi are the real number pi"]
     return ck.finish()
 
 
